@@ -441,6 +441,7 @@ impl Run {
             AbsOp::MarkDirty { t } => v.push(Step::Do(Op::MarkDirty { inst: 0, t: self.tix(*t) })),
             AbsOp::IsClean { t } => v.push(Step::Do(Op::IsClean { inst: 0, t: self.tix(*t) })),
             AbsOp::Sleep { ms } => v.push(Step::Do(Op::Sleep { ms: *ms as u64 })),
+            AbsOp::Touch { n } => v.push(Step::Do(Op::Touch { inst: 0, n: *n as u32 })),
             AbsOp::Fill { t, n } => {
                 let t = self.tix(*t);
                 for _ in 0..*n {
@@ -845,7 +846,8 @@ impl Run {
                         match topics.iter().position(|n| n == name) {
                             Some(ti) => self.model.check_count(ti as u32, &Resp::Count(*c))?,
                             None => {
-                                if *c != 0 {
+                                // auxiliary one-entry topics of Op::Touch are never read
+                                if *c != 0 && !name.starts_with("__aux_") {
                                     return viol(Oracle::Count, format!("count map has unknown topic {:?} = {}", name, c));
                                 }
                             }
@@ -906,6 +908,14 @@ impl Run {
         let nt = self.nt();
         let mut k = 0usize;
         for t in 0..nt as u32 {
+            self.drain_one(t, choices, &mut k)?;
+        }
+        Ok(())
+    }
+
+    /// drain one topic (see `drain`)
+    pub fn drain_one(&mut self, t: u32, choices: &[DrainStep], k: &mut usize) -> Check {
+        {
             let mut empties = 0;
             let mut guard = self.model.topics[t as usize].appended.len() * 2 + 50;
             while empties < 2 {
@@ -913,8 +923,8 @@ impl Run {
                     return viol(Oracle::Progress, format!("drain of topic {} does not terminate", t));
                 }
                 guard -= 1;
-                let mut ch = if choices.is_empty() { DrainStep::Next } else { choices[k % choices.len()].clone() };
-                k += 1;
+                let mut ch = if choices.is_empty() { DrainStep::Next } else { choices[*k % choices.len()].clone() };
+                *k += 1;
                 // bulk of a long backlog is drained with unbounded reads (cost), the generated
                 // choices take over for the last 200 entries
                 if self.model.topics[t as usize].avail_min() > 200 {
